@@ -161,14 +161,10 @@ def gen_chain_schema(rng):
     return schema
 
 
-# A discriminator (class-level or Annotated) *without* a field is only generated where the mixin has no format-specific method:
-# with DataClassMessagePackMixin/ORJSON/TOML, variant.__mashumaro_from_dict_<fmt>__ resolves through the MRO to the
-# base's own dispatcher (the variant's unpacker is never compiled because no AttributeError occurs), every attempt
-# ends in a swallowed RecursionError and from_msgpack answers SuitableVariantNotFoundError after exponential time
-# (a /repo defect outside C19, reported).
-NO_FORMAT_METHOD = ("dict", "json", "yaml", "plain")
-if __import__("os").environ.get("C19_FIELDLESS_ALL"):      # for trying a repaired tree (fixes/C19-variant-own-method.diff)
-    NO_FORMAT_METHOD = tuple(KINDS)
+# Kinds in which discriminators without a field are generated: all of them since /repo 233f7d4 (before that fix
+# variant.__mashumaro_from_dict_<fmt>__ resolved through the MRO to the base's dispatcher for the MessagePack/ORJSON/TOML
+# mixins: exponential time and SuitableVariantNotFoundError; seeded/revert-233f7d4 brings it back).
+NO_FORMAT_METHOD = tuple(KINDS)
 
 
 def conv_disc(t, p, wf, sup):
@@ -617,19 +613,44 @@ def fixed_cases():
 # one case = (schema, src, root_ty, value/wire, entry)
 # ---------------------------------------------------------------------------
 
+class CaseTimeout(BaseException):
+    """not an Exception: must pass through the `except Exception: pass` of generated try-each code"""
+
+
+CASE_TIMEOUT_S = 8
+
+
+def _on_alarm(signum, frame):
+    raise CaseTimeout()
+
+
 def evaluate(case, mod=None):
-    """runs the real library on a case; returns (res, verdict) where verdict is None or (what, signature)"""
+    """runs the real library on a case; returns (res, verdict) where verdict is None or (what, signature).
+    A call that does not return within CASE_TIMEOUT_S seconds (unbounded recursion retried at every level takes
+    exponential time) is reported as a failure instead of hanging the check."""
+    import signal
     own = mod is None
     if own:
         mod = L.load_module(case["src"])
+    old = signal.signal(signal.SIGALRM, _on_alarm)
+    signal.setitimer(signal.ITIMER_REAL, CASE_TIMEOUT_S)
     try:
-        if case["entry"]["dir"] == "ser":
-            res = L.run_ser(mod, case["schema"], case["root_ty"], case["value"], case["entry"])
-            verdict = L.check_ser(case["schema"], case["root_ty"], case["value"], case["entry"], res)
-        else:
-            res = L.run_de(mod, case["schema"], case["root_ty"], case["wire"], case["entry"])
-            verdict = L.check_de(case["schema"], case["root_ty"], case["wire"], case["entry"], res)
+        try:
+            if case["entry"]["dir"] == "ser":
+                res = L.run_ser(mod, case["schema"], case["root_ty"], case["value"], case["entry"])
+                signal.setitimer(signal.ITIMER_REAL, 0)
+                verdict = L.check_ser(case["schema"], case["root_ty"], case["value"], case["entry"], res)
+            else:
+                res = L.run_de(mod, case["schema"], case["root_ty"], case["wire"], case["entry"])
+                signal.setitimer(signal.ITIMER_REAL, 0)
+                verdict = L.check_de(case["schema"], case["root_ty"], case["wire"], case["entry"], res)
+        except CaseTimeout:
+            res = {"ok": False, "exc": f"no answer within {CASE_TIMEOUT_S}s", "log": [], "out": None, "result": None, "obs": []}
+            verdict = (f"the call did not return within {CASE_TIMEOUT_S}s (endless recursion retried at every level?)",
+                       {"direction": case["entry"]["dir"], "via": case["entry"]["via"], "kind": "timeout"})
     finally:
+        signal.setitimer(signal.ITIMER_REAL, 0)
+        signal.signal(signal.SIGALRM, old)
         if own:
             L.unload_module(mod)
     return res, verdict
@@ -713,14 +734,18 @@ def run(ctx: vlib.Ctx):
     # 2+3. cases
     rng = ctx.rng
     thorough = not ctx.quick()
-    n_schemas = ctx.budget(60, 450)
+    n_schemas = ctx.budget(60, 380)
     vals_per = ctx.budget(3, 4)
     ser_cases, de_cases = [], []     # (case dict, res)
     envs = []                        # coq env text per schema index
     t_lib = 0.0
 
+    timeouts = [0]
+
     def do_schema(si, schema, roots):
         nonlocal t_lib
+        if timeouts[0] >= 4:
+            return      # the library hangs on input after input: four failing inputs are recorded, stop feeding it
         src = L.class_source(schema)
         try:
             mod = L.load_module(src)
@@ -769,12 +794,12 @@ def run(ctx: vlib.Ctx):
                             case["value"] = value
                             case["wire"] = L.wire_of(schema, value, drop_default_none=(L.fmt_of(entry) == "toml" or rng.random() < 0.3))
                         t0 = time.time()
-                        # /repo shares one discriminator registry between formats: after from_dict has filled it,
-                        # from_msgpack/from_toml/from_json(orjson) of the same class recurse forever (a call-history
-                        # defect outside C19, reported to C14).  Those entries get a module of their own.
-                        fresh = (schema.get("has_disc") and entry["via"] == "mixin" and entry["method"] != "from_dict"
-                                 and schema["kind"] in ("orjson", "msgpack", "toml"))
-                        res, verdict = evaluate(case, None if fresh else mod)
+                        if timeouts[0] >= 4:
+                            return
+                        res, verdict = evaluate(case, mod)
+                        if verdict is not None and verdict[1].get("kind") == "timeout":
+                            timeouts[0] += 1
+                            ctx.notes.append(f"timeout {timeouts[0]}: {entry} on schema {si}")
                         t_lib += time.time() - t0
                         ctx.count(shape_key(schema, root_ty, value, entry))
                         ctx.hist("entry_points", direction + ":" + (entry.get("method") or "codec-" + entry["codec"])
@@ -810,7 +835,7 @@ def run(ctx: vlib.Ctx):
         si += 1
 
     # context / flag chains (depth 3-5, every class with its own opt-ins and hook profile)
-    for _ in range(ctx.budget(45, 350)):
+    for _ in range(ctx.budget(45, 280)):
         schema = gen_chain_schema(rng)
         root_ty = ["dc", len(schema["classes"]) - 1]
         roots = [(root_ty, gen_value_capped(rng, schema, root_ty, schema["toml_safe"], maxd=12)) for _ in range(2)]
@@ -822,7 +847,7 @@ def run(ctx: vlib.Ctx):
         si += 1
 
     # class hierarchies: subclass instances under base-typed fields, class-level and Annotated discriminators
-    for _ in range(ctx.budget(45, 400)):
+    for _ in range(ctx.budget(45, 330)):
         schema = gen_hier_schema(rng)
         n = len(schema["classes"])
         roots = []
@@ -840,7 +865,7 @@ def run(ctx: vlib.Ctx):
         si += 1
 
     # unions whose members differ in their keyword-adding options
-    for _ in range(ctx.budget(30, 200)):
+    for _ in range(ctx.budget(30, 150)):
         schema = gen_union_flags_schema(rng)
         root_ty = ["dc", len(schema["classes"]) - 1]
         do_schema(si, schema, [(root_ty, gen_value_capped(rng, schema, root_ty, schema["toml_safe"])) for _ in range(2)])
